@@ -46,6 +46,9 @@ ASSUMPTIONS = [
     "and the discrepancy is written to coverage.notes",
     "statistical monitors: fixed n per tier, exact finite-n null bounds (DKW, exact binomial), Bonferroni over at most "
     "MAX_GOF tests per run -> family-wise false alarm <= 1e-9; draws are a deterministic function of VERIF_SEED",
+    "float32 resolution of the wrapped sampler is outside the claim: non-finite draws at a frequency the exact binomial "
+    "test cannot distinguish from <= 1e-5 are counted (nonfinite_draws_tolerated) and left out of the fit (observed: "
+    "TFP's float32 StudentT sampler returns +-inf about 2.5e-7 of the time for df ~ 1.8); more than that is a violation",
     "JAX API translation layer (DESIGN §2)",
 ]
 N_DRAWS = {"quick": 40000, "thorough": 200000}
@@ -715,6 +718,19 @@ def _emit(ctx, key, detail):
         ctx.count("violations_not_written_out_same_case_and_key")
 
 
+def _nonfinite_budget(n):
+    """Largest count of non-finite draws among n that the exact test of H0 'frequency <= 1e-5' accepts at ALPHA."""
+    cache = _W.setdefault("nf_budget", {})
+    if n not in cache:
+        from scipy import stats as st
+
+        k = 0
+        while st.binom.sf(k, n, 1e-5) > ALPHA:
+            k += 1
+        cache[n] = k
+    return cache[n]
+
+
 def _check_sample(case, ctx, cfg, out, exp_shape, lanes, base_ok, what):
     import time
 
@@ -770,6 +786,18 @@ def _check_sample_(case, ctx, cfg, out, exp_shape, lanes, base_ok, what):
     for sel, pt in lanes:
         xl = x if sel is None else x[sel]
         a, k = _refargs(pt, case["pos"], case["kw"])
+        # float32 resolution of the wrapped sampler (ASSUMPTIONS): a non-finite draw is tolerated while the exact
+        # binomial test of "frequency <= 1e-5" is not rejected; such draws are counted and left out of the fit
+        nf = ~np.isfinite(xl)
+        if nf.any():
+            has_draw_axis = xl.ndim > ev_nd
+            bad = nf.reshape(xl.shape[0], -1).any(1) if has_draw_axis else np.array([True])
+            ndraw = xl.shape[0] if has_draw_axis else 1
+            if int(bad.sum()) <= _nonfinite_budget(ndraw):
+                ctx.count("nonfinite_draws_tolerated", int(bad.sum()))
+                if not has_draw_axis:
+                    continue
+                xl = xl[~bad]
         sp_ = _support_problem(ref, xl, a, k)
         if sp_ is not None:
             report("outside-support", {**_base_detail(case, pt), "configuration": what, **sp_}, pt,
